@@ -38,7 +38,7 @@ Section Facts.
     Notation idx := (Z.of_nat p + 1).
     Fixpoint iterv (j : nat) : vals := match j with O => v1 | S j' => evf idx (iterv j') end.
     (* the evaluation oracle of the Python loop is the {equations} block — on the stores the iteration visits *)
-    Hypothesis Hev : forall i em cf k, (i < N)%nat -> ev t em cf k (iterv i) = (evf idx (iterv i), None).
+    Hypothesis Hev : forall i k, (i < N)%nat -> ev t (errors o) (catch_first o) k (iterv i) = (evf idx (iterv i), None).
     Hypothesis Haft : forall em cf k v, after t em cf k v = (v, None).
     Hypothesis Hshape : forall v, shape n m v -> shape n m (evf idx v).
     Hypothesis Hp : (p < n)%nat.
@@ -168,7 +168,7 @@ Section Facts.
       induction n' as [|n' IH]; intros j lg code HN Hs Hr.
       - cbn [FSolve.t_loop Solver.loop fo_of Nat.eqb]. f_equal. lia.
       - rewrite (t_loop_step n' _ _ _ code Hs).
-        rewrite (loop_step n' (S j) (iterv j) (chk j) lg (Hev j _ _ _ ltac:(lia))).
+        rewrite (loop_step n' (S j) (iterv j) (chk j) lg (Hev j _ ltac:(lia))).
         change (evf idx (iterv j)) with (iterv (S j)). fold (chk (S j)). fold (endo_fin (S j)).
         cbn [Nat.eqb].
         assert (Hs' : shape n m (iterv (S j))) by (cbn [iterv]; apply Hshape; exact Hs).
@@ -222,7 +222,7 @@ Section Facts.
     Proof.
       induction n' as [|n' IH]; intros j lg HN Hr.
       - cbn [Solver.loop]. constructor.
-      - rewrite (loop_step n' (S j) (iterv j) (chk j) lg (Hev j _ _ _ ltac:(lia))).
+      - rewrite (loop_step n' (S j) (iterv j) (chk j) lg (Hev j _ ltac:(lia))).
         change (evf idx (iterv j)) with (iterv (S j)). fold (chk (S j)).
         destruct Hr as (R1 & R2 & R3 & R4).
         assert (HR : regime_from j (S n')) by (repeat split; assumption).
@@ -240,5 +240,155 @@ Section Facts.
         + apply IH; [lia|]. apply regime_next; auto.
           intros H. exfalso. assert (X : false = true) by (apply R2; exact H). discriminate X.
     Qed.
+
+    (* all check / endogenous values of passes j .. j+n' finite: the loop ends '.' or 'F', on a store of the iteration *)
+    Lemma loop_finite : forall n' j lg,
+      (j + n' <= N)%nat ->
+      (forall i, (j <= i <= j + n')%nat -> all_finite (chk i) = true) ->
+      exists i x k lg', loop d o t p n' (S j) (iterv j) (chk j) lg = LDone (iterv i) x k lg' /\ (x = Solved \/ x = Failed).
+    Proof.
+      induction n' as [|n' IH]; intros j lg HN Hf.
+      - cbn [Solver.loop]. exists j, Failed, (S j - 1)%nat, lg. split; [reflexivity|right; reflexivity].
+      - rewrite (loop_step n' (S j) (iterv j) (chk j) lg (Hev j _ ltac:(lia))).
+        change (evf idx (iterv j)) with (iterv (S j)). fold (chk (S j)).
+        rewrite (Hf j) by lia. rewrite (Hf (S j)) by lia. cbn [negb].
+        assert (Hnext : exists i x k lg', loop d o t p n' (S (S j)) (iterv (S j)) (chk (S j)) (lg ++ [EvPass t (S j)])
+                                          = LDone (iterv i) x k lg' /\ (x = Solved \/ x = Failed)).
+        { apply IH; [lia|]. intros i Hi. apply Hf. lia. }
+        destruct (Z.of_nat (S j) <? min_iter o); [exact Hnext|].
+        destruct (conv (tol o) (chk (S j)) (chk j)); [|exact Hnext].
+        exists (S j), Solved, (S j), ((lg ++ [EvPass t (S j)]) ++ [EvAfter t (S j)]). split; [reflexivity|left; reflexivity].
+    Qed.
   End Sim.
+
+  (* all values of the check and endogenous variables of period p stay finite over the first N passes *)
+  Definition stays_finite (d : mdesc) (p : nat) (v1 : vals) (N : nat) : Prop :=
+    forall i, (i <= N)%nat -> all_finite (chk d p v1 i) = true /\ endo_fin d p v1 i = true.
+  Lemma finite_regime_from d o p v1 N j n' : stays_finite d p v1 N -> (j + n' <= N)%nat -> regime_from d o p v1 j n'.
+  Proof.
+    intros H HN. repeat split.
+    - intros i Hi. destruct (H i ltac:(lia)) as [-> ->]. reflexivity.
+    - intros _. apply (H j). lia.
+    - intros _ i Hi. apply (H i). lia.
+    - intros _ i Hi Hf. destruct (H (i - 1)%nat ltac:(lia)) as [Hc _]. rewrite Hc in Hf. discriminate.
+  Qed.
+  Lemma finite_regime d o p v1 N : stays_finite d p v1 N -> regime_from d o p v1 0 N.
+  Proof. intros H. apply finite_regime_from; [exact H|lia]. Qed.
+
+  (* ================================================================== subroutine solve_t as a whole *)
+  (* the values the iteration starts from: the endogenous values of period p + offset copied into period p *)
+  Definition seeded (d : mdesc) (o : opts num) (v : vals) (p : nat) : vals :=
+    if offset o =? 0 then v else copy_endo d v p (Z.to_nat (Z.of_nat p + offset o)).
+
+  Lemma seeded_shape n m d o (v : vals) p : shape n m v -> shape n m (seeded d o v p).
+  Proof. intros H. unfold seeded. destruct (offset o =? 0); [exact H|]. apply copy_endo_shape. exact H. Qed.
+
+  Lemma seeded_idem n m d o (v : vals) p :
+    shape n m v -> (p < n)%nat -> rows_ok m (endo d) -> (offset o = 0 \/ 0 <= Z.of_nat p + offset o < Z.of_nat n) ->
+    seeded d o (seeded d o v p) p = seeded d o v p.
+  Proof.
+    intros Hs Hp Hr Ho. unfold seeded. destruct (offset o =? 0) eqn:E; [reflexivity|].
+    apply (copy_endo_idem num zero n m); auto; lia.
+  Qed.
+
+  Lemma t_solve_t_spec fm d o T p n m ec (v : vals) :
+    shape n m v -> (0 < m)%nat -> (p < n)%nat -> rows_ok m (check d) -> rows_ok m (endo d) -> fm_endo fm = endo_nums d ->
+    t_index (Z.of_nat n) T = Z.of_nat p + 1 ->
+    t_guard fm (Z.of_nat n) (Z.of_nat p + 1) = 0 ->
+    (offset o = 0 \/ 0 <= Z.of_nat p + offset o < Z.of_nat n) ->
+    t_solve_t fm v T (min_iter o) (max_iter o) (tol o) (offset o) (cv_of d) ec =
+    (if (ec =? c_ec_raise) && negb (all_finite (get_check d (seeded d o v p) p))
+     then mkFout (seeded d o v p) false undef_iter c_pre_existing
+     else t_loop fm ec (min_iter o) (max_iter o) (tol o) (cv_of d) (Z.of_nat p + 1) (Z.to_nat (max_iter o)) 1
+                 (seeded d o v p) (get_check d (seeded d o v p) p) (-1)).
+  Proof.
+    intros Hs Hm Hp Hchk Hend Hfe Hidx Hg Hoff. unfold FSolve.t_solve_t. rewrite (shape_ncols _ _ _ Hs Hm), Hidx, Hg.
+    change (negb (0 =? 0)) with false. cbv iota. unfold seeded.
+    destruct (offset o =? 0) eqn:Eo.
+    - rewrite (col_check n m v d p Hs Hp Hchk). reflexivity.
+    - replace (Z.of_nat p + 1 + offset o <? 1) with false by lia.
+      replace (Z.of_nat n <? Z.of_nat p + 1 + offset o) with false by lia.
+      replace (Z.of_nat p + 1 + offset o) with (Z.of_nat (Z.to_nat (Z.of_nat p + offset o)) + 1) by lia.
+      assert (Hq : (Z.to_nat (Z.of_nat p + offset o) < n)%nat) by lia.
+      rewrite (t_copy_eq num zero n m fm d v p (Z.to_nat (Z.of_nat p + offset o)) Hs Hp Hq Hend Hfe).
+      rewrite (col_check n m _ d p (copy_endo_shape num zero n m d v p _ Hs) Hp Hchk). reflexivity.
+  Qed.
+
+  Section Main.
+    Variables (ev before after : hook num).
+    Notation solve_t_M := (solve_t_M num sub absf ltb isfin zero ev before after).
+
+    Definition same_nolog (a b : mstate num) : Prop :=
+      vals_of a = vals_of b /\ status a = status b /\ iters a = iters b.
+    (* same return value or exception class, same values / statuses / iteration counts *)
+    Definition agree {A} (x y : mstate num * outcome A) : Prop := snd x = snd y /\ same_nolog (fst x) (fst y).
+
+    Lemma w_ec_valid (o : opts num) : errors o <> EInvalid -> exists ec, w_ec (errors o) = Some ec /\
+      (ec =? c_ec_raise) = is_raise (errors o).
+    Proof. destruct (errors o); intros H; try contradiction; eexists; split; reflexivity. Qed.
+
+    (* FortranEngine.solve_t = BaseModel.solve_t on a feasible period, for all options of the lattice with max_iter >= 1,
+       while the passes stay inside the regime (in particular: while all values stay finite) *)
+    Theorem w_solve_t_refines fm d o t s p n m :
+      shape n m (vals_of s) -> length (status s) = n -> (0 < m)%nat ->
+      rows_ok m (check d) -> rows_ok m (endo d) ->
+      fm_endo fm = endo_nums d -> fm_lags fm = Z.of_nat (lags d) -> fm_leads fm = Z.of_nat (leads d) ->
+      py_pos n t = Some p -> feasible d n p = true ->
+      errors o <> EInvalid -> 0 < max_iter o -> min_iter o <= max_iter o ->
+      (offset o = 0 \/ 0 <= Z.of_nat p + offset o < Z.of_nat n) ->
+      (forall v, shape n m v -> shape n m (evf (Z.of_nat p + 1) v)) ->
+      let v0 := seeded d o (vals_of s) p in
+      let N := Z.to_nat (max_iter o) in
+      (forall i k, (i < N)%nat -> ev t (errors o) (catch_first o) k (iterv p v0 i) = (evf (Z.of_nat p + 1) (iterv p v0 i), None)) ->
+      (forall em cf k v, before t em cf k v = (v, None)) ->
+      (forall em cf k v, after t em cf k v = (v, None)) ->
+      regime_from d o p v0 0 N ->
+      agree (w_solve_t fm d o t s) (solve_t_M d o t s).
+    Proof.
+      intros Hs Hlen Hm Hchk Hend Hfe Hfl Hfd Hpos Hfeas Hinv Hmax Hmm Hoff Hshape v0 N Hev Hbef Haft Hreg.
+      pose proof (py_pos_lt _ _ _ Hpos) as Hp.
+      destruct (w_ec_valid o Hinv) as (ec & Hec & Hecr).
+      assert (Hlt : (max_iter o <? min_iter o) = false) by lia.
+      assert (Hs0 : shape n m v0) by (apply seeded_shape; exact Hs).
+      assert (Hg : t_guard fm (Z.of_nat n) (Z.of_nat p + 1) = 0).
+      { rewrite (t_guard_feasible fm d n p Hfl Hfd Hp), Hfeas. reflexivity. }
+      assert (Hpre : (if offset o =? 0 then @inl vals exn (vals_of s)
+                      else if Z.of_nat p + offset o <? 0 then inr IndexError
+                           else if Z.of_nat n <=? Z.of_nat p + offset o then inr IndexError
+                                else inl (copy_endo d (vals_of s) p (Z.to_nat (Z.of_nat p + offset o)))) = inl v0).
+      { unfold v0, seeded. destruct (offset o =? 0) eqn:Eo; [reflexivity|].
+        replace (Z.of_nat p + offset o <? 0) with false by lia.
+        replace (Z.of_nat n <=? Z.of_nat p + offset o) with false by lia. reflexivity. }
+      unfold FSolve.w_solve_t, Solver.solve_t_M, agree. rewrite Hlt, Hec, Hlen, Hpos, Hfeas. cbn [negb]. cbv zeta.
+      rewrite Hpre.
+      destruct (is_raise (errors o) && negb (all_finite (get_check d v0 p))) eqn:Epre.
+      { cbn [fst snd]. split; [reflexivity|]. repeat split. }
+      assert (Hts : t_solve_t fm v0 (t + 1) (min_iter o) (max_iter o) (tol o) (offset o) (cv_of d) ec
+                    = t_loop fm ec (min_iter o) (max_iter o) (tol o) (cv_of d) (Z.of_nat p + 1) N 1 v0 (get_check d v0 p) (-1)).
+      { rewrite (t_solve_t_spec fm d o (t + 1) p n m ec v0 Hs0 Hm Hp Hchk Hend Hfe (t_index_pos n t p Hpos) Hg Hoff).
+        replace (seeded d o v0 p) with v0 by (symmetry; apply (seeded_idem n m d o (vals_of s) p Hs Hp Hend Hoff)).
+        rewrite Hecr, Epre. reflexivity. }
+      rewrite Hts.
+      pose proof (sim ev after fm d o t p n m ec v0 N Hev Haft Hshape Hp Hm Hg Hchk Hend Hfe Hec N 0%nat
+                      (log s ++ [EvBefore t]) (-1) ltac:(lia) Hs0 Hreg) as Hsim.
+      pose proof (loop_results ev after d o t p n m ec v0 N Hev Haft Hp Hm Hec N 0%nat
+                      (log s ++ [EvBefore t]) ltac:(lia) Hreg) as Hres.
+      cbn [iterv] in Hsim, Hres. unfold chk in Hsim, Hres. cbn [iterv] in Hsim, Hres.
+      change (Z.of_nat 1) with 1 in Hsim. rewrite Hsim. rewrite Hbef.
+      assert (HN : (N =? 0)%nat = false) by (apply Nat.eqb_neq; unfold N; lia).
+      rewrite HN.
+      destruct wrapper_codes as (W0 & W1 & W2 & _).
+      destruct template_codes as (_ & _ & _ & _ & _ & _ & _ & _ & _ & Cnr & Cns & _).
+      subst N.
+      remember (loop num sub absf ltb isfin zero ev after d o t p (Z.to_nat (max_iter o)) 1 v0 (get_check d v0 p)
+                     (log s ++ [EvBefore t])) as r eqn:Er.
+      destruct Hres as [v' k lg'|v' k lg'|v' k lg' He|v' k lg' He|v' lg' He]; cbn [fo_of finish];
+        cbn [fo_code fo_conv fo_vals fo_iter]; rewrite ?W0, ?W1, ?W2, ?Cnr, ?Cns.
+      - cbn [Z.eqb st_eqb andb fst snd]. split; [reflexivity|]. repeat split.
+      - cbn [Z.eqb st_eqb andb]. destruct (fail_raise o); cbn [fst snd]; (split; [reflexivity|]; repeat split).
+      - rewrite He. cbn [Z.eqb Pos.eqb andb is_raise is_skip st_eqb fst snd]. split; [reflexivity|]. repeat split.
+      - rewrite He. cbn [Z.eqb Pos.eqb andb is_raise fst snd]. split; [reflexivity|]. repeat split.
+      - contradiction.
+    Qed.
+  End Main.
 End Facts.
